@@ -66,6 +66,7 @@ def run(ctx, rep):
     rep.rule("R08.3", "responses are routed by their own sequence number: one dict.pop(seq) and only the popped callback runs, once")
     rep.rule("R08.4", "registration precedes transmission; a failed send unregisters the same key")
     rep.rule("R08.5", "sequence numbers come from one per-connection itertools.count via a single next()")
+    rep.rule("R08.6", "an encoded response is actually transmitted: the send layer never strands a queued message (= R12.1-R12.3)")
     rep.assume("exceptions of the encode step are TypeError/ValueError(UnicodeError)/OverflowError; transmit failures are "
                "EOFError/OSError and may leave _dispatch_request (the connection is dead then, C11)",
                "undecodable frames (no sequence number known) are out of scope",
@@ -468,3 +469,6 @@ def run(ctx, rep):
                ctx.loc(writers[0]) if writers else fs.loc, kind="site")
         users = [c for fu, c in ctx.call_sites("self._get_seq_id")]
         rep.floor("R08.5", "users of _get_seq_id", len(users), 1)
+
+    # ------------------------------------------------------------------ R08.6
+    K.share(ctx, rep, "c12", lambda o: o.rule in ("R12.1", "R12.2", "R12.3", "R12.6"), "R08.6", floor=8)
